@@ -182,8 +182,8 @@ theorem relAll_takeAll_perm (pol : Policy) (t : Tid) (fp fp' : Fp) (e : Env) (hp
 
 -- @theorem C13_try_lock_then_unlock_api_is_exact : at the API level (ThreadKey check, raw try, poison read, guard construction, LockGuard::unlock): with no concurrent activity, try_lock/try_read of any lockable shape with distinct leaves returns WouldBlock — table, flags and key count exactly as before — if some declared leaf is busy, and otherwise returns a guard (Ok or Err(poisoned) according to the flags) whose unlock hands the key back and leaves the whole table EXACTLY as it was before the call
 theorem C13_try_lock_then_unlock_api_is_exact (pol : Policy) (t : Tid) (C : Ctx) (c : Nat) (m : Mode)
-    (u : UserSt) (e : Env) (hl : lockable (C.shape c) = true) (hnd : (declLeaves (C.shape c)).Nodup)
-    (hq : Quiescent e) :
+    (u : UserSt) (e : Env) (hout : C.outer = false) (hl : lockable (C.shape c) = true)
+    (hnd : (declLeaves (C.shape c)).Nodup) (hq : Quiescent e) :
     solo pol t (guardSession C (C.shape c)
         { coll := c, api := .tryLock, mode := m, key := .owned, body := [], exit := .unlock } u) e =
       if (holdsOf (C.shape c) m).all (freeFor e) then
@@ -205,7 +205,7 @@ theorem C13_try_lock_then_unlock_api_is_exact (pol : Policy) (t : Tid) (C : Ctx)
     have hpois : (poisonIds (C.shape c)).any (takeAll t (shapeFp C.W (C.shape c) m) e).poison =
         (poisonIds (C.shape c)).any e.poison := by simp
     -- the guard phase: read the flags, end of the call, empty body, unlock(guard)
-    simp only [guardSession, solo_mark, solo_bindX, htry, if_true, guardPhase, Prog.bind, solo_readPoison,
+    simp only [guardSession, solo_mark, solo_bindX, htry, if_true, guardPhase, guardDropN, hout, Prog.bind, solo_readPoison,
       Bool.false_or, bodySteps, solo, solo_guardDrop, Bool.false_eq_true, if_false, hrestore, hpois]
   · have hf : (holdsOf (C.shape c) m).all (freeFor e) = false := by
       cases h : (holdsOf (C.shape c) m).all (freeFor e)
